@@ -19,7 +19,7 @@ ROOT = os.path.dirname(os.path.dirname(os.path.abspath(__file__)))
 REPO = os.environ.get("VF_REPO", "/repo")
 SPECS = os.path.join(ROOT, "specs")
 HARNESS = os.path.join(ROOT, "harness")
-EVIDENCE = os.path.join(ROOT, "evidence")
+EVIDENCE = os.environ.get("VF_EVIDENCE_DIR") or os.path.join(ROOT, "evidence")   # calibration runs on changed trees write elsewhere
 FINDINGS_FILE = os.path.join(ROOT, "known_findings.json")
 TLA_CP = "/opt/veriftools/tla/tla2tools.jar:/opt/veriftools/tla/CommunityModules-deps.jar"
 NCPU = os.cpu_count() or 4
@@ -280,7 +280,7 @@ def write_evidence(prop, tier, seed, level, coverage, wall_s, violations=0, assu
 
 
 def save_replay(prop, name, payload):
-    d = os.path.join(ROOT, "replays", prop)
+    d = os.path.join(os.environ.get("VF_REPLAY_DIR") or os.path.join(ROOT, "replays"), prop)
     os.makedirs(d, exist_ok=True)
     p = os.path.join(d, name)
     with open(p, "w") as f:
